@@ -357,6 +357,7 @@ def Ev.internal : Ev → Bool
   | .block => true
   | .unblock => true
   | .kill _ => true
+  | .deliver => true
   | .eof => true
   | _ => false
 
@@ -421,35 +422,40 @@ theorem step_inv (base full : List PK) (s : S) (ev : Ev) (hev : ev.internal = tr
   | resume =>
     simp only [step]
     split
-    · rename_i lvl rest exc hph
-      exact resumeAt_inv base full s h lvl .future rest exc hph s rfl rfl
     · exact h
+    · split
+      · rename_i lvl rest exc hph
+        exact resumeAt_inv base full s h lvl .future rest exc hph s rfl rfl
+      · exact h
   | block => exact CmdInv_congr base full s _ rfl rfl rfl h
   | unblock =>
     simp only [step]
     split
-    · rename_i lvl rest exc hph
-      exact resumeAt_inv base full s h lvl .drain rest exc hph _ rfl rfl
     · exact CmdInv_congr base full s _ rfl rfl rfl h
+    · split
+      · rename_i lvl rest exc hph
+        exact resumeAt_inv base full s h lvl .drain rest exc hph _ rfl rfl
+      · exact CmdInv_congr base full s _ rfl rfl rfl h
   | kill k =>
     simp only [step]
     split
     · exact h
-    · rename_i hph
-      rcases h with ht | ⟨_, hm⟩
-      · rcases ht with hc | ⟨w, r, e, hp⟩ | ⟨w, r, e, hp⟩ <;> rw [hph] at * <;> simp_all
-      · rw [hph] at hm; exact absurd hm (by simp)
     · cases k with
-      | query => exact h
-      | conn => exact Or.inl (throwStart_terminating _ _)
-    · rename_i lvl w rest exc hph
-      cases k with
-      | query =>
-        simp only
-        split
-        · exact throwAt_inv base full s .cancelled h lvl w rest exc hph _ rfl rfl
-        · exact h
-      | conn => exact throwAt_inv base full s .cancelled h lvl w rest exc hph _ rfl rfl
+      | query => simp only; split <;> first | exact h | exact CmdInv_congr base full s _ rfl rfl rfl h
+      | conn => exact CmdInv_congr base full s _ rfl rfl rfl h
+  | deliver =>
+    simp only [step]
+    split
+    · split
+      · exact h
+      · rename_i hph
+        rcases h with ht | ⟨_, hm⟩
+        · rcases ht with hc | ⟨w, r, e, hp⟩ | ⟨w, r, e, hp⟩ <;> rw [hph] at * <;> simp_all
+        · rw [hph] at hm; exact absurd hm (by simp)
+      · exact Or.inl (throwStart_terminating _ _)
+      · rename_i lvl w rest exc hph
+        exact throwAt_inv base full s .cancelled h lvl w rest exc hph _ rfl rfl
+    · exact h
   | eof =>
     simp only [step]
     split
@@ -475,5 +481,145 @@ theorem cmd_establishes (s : S) (script : List Op) (hidle : s.phase = .idle) (hl
     CmdInv s.written (emits script) (step s (.cmd script)) := by
   simp only [step, hidle]
   exact runHandler_inv s.written (emits script) script _ hl hlc [] (by simp [S.written]) (by simp)
+
+/-! ### KILL QUERY never ends the connection -/
+
+/-- handler ops that do not by themselves end the connection -/
+def Op.benign : Op → Bool
+  | .quit => false
+  | .raise_ .authFailed => false
+  | .raise_ .cancelled => false
+  | .raise_ .connLost => false
+  | .selfKill .conn => false
+  | .call .init _ _ => false
+  | .call .close _ _ => false
+  | .callRet .init _ => false
+  | .callRet .close _ => false
+  | _ => true
+
+/-- the parts of the state a benign script leaves alone -/
+structure Calm (s s' : S) : Prop where
+  mustCancel : s'.mustCancel = s.mustCancel
+  kill : s'.kill = s.kill
+  lost : s'.lost = s.lost
+  eofSeen : s'.eofSeen = s.eofSeen
+  cancelReq : s'.cancelReq = s.cancelReq
+  executing : s'.executing = s.executing
+
+theorem Calm.refl (s : S) : Calm s s := ⟨rfl, rfl, rfl, rfl, rfl, rfl⟩
+theorem Calm.trans {a b c : S} (h1 : Calm a b) (h2 : Calm b c) : Calm a c :=
+  ⟨h2.mustCancel.trans h1.mustCancel, h2.kill.trans h1.kill, h2.lost.trans h1.lost, h2.eofSeen.trans h1.eofSeen,
+   h2.cancelReq.trans h1.cancelReq, h2.executing.trans h1.executing⟩
+
+theorem flush_calm (s : S) : Calm s (flush s) := by unfold flush; split <;> exact ⟨rfl, rfl, rfl, rfl, rfl, rfl⟩
+
+/-- outcome of a benign fragment on a healthy transport with no cancellation pending: it ends, raises one of the
+    script's own exceptions (never `CancelledError`, never a connection error), or parks — leaving the kill state,
+    the pending-cancellation flag and the transport flags untouched -/
+def BOutcome (lvl : Lvl) (s : S) (exc : Option Exc) (onEnd : S → Option Exc → S) (onThrow : S → Exc → S) (r : S) : Prop :=
+  (∃ s', Calm s s' ∧ r = onEnd s' exc) ∨
+  (∃ s' e, Calm s s' ∧ (e = .mysqlError ∨ e = .generic) ∧ r = onThrow s' e) ∨
+  (∃ w rest, Calm s r ∧ r.phase = .parked lvl w rest exc ∧ (∀ op ∈ rest, op.benign = true))
+
+theorem runOps_benign (lvl : Lvl) (onEnd : S → Option Exc → S) (onThrow : S → Exc → S) (exc : Option Exc) :
+    ∀ (ops : List Op) (s : S), s.lost = false → s.mustCancel = false → (∀ op ∈ ops, op.benign = true) →
+      BOutcome lvl s exc onEnd onThrow (runOps lvl onEnd onThrow s ops exc) := by
+  intro ops
+  induction ops with
+  | nil => intro s _ _ _; simp only [runOps]; exact Or.inl ⟨s, Calm.refl s, rfl⟩
+  | cons op rest ih =>
+    intro s hl hm hb
+    have hrest : ∀ op ∈ rest, op.benign = true := fun o ho => hb o (by simp [ho])
+    have hop := hb op (by simp)
+    have lift : ∀ s1 : S, Calm s s1 →
+        BOutcome lvl s exc onEnd onThrow (runOps lvl onEnd onThrow s1 rest exc) := by
+      intro s1 hc
+      rcases ih s1 (by rw [hc.lost]; exact hl) (by rw [hc.mustCancel]; exact hm) hrest with
+        ⟨s', h1, hr⟩ | ⟨s', e, h1, he, hr⟩ | ⟨w, r, h1, hph, hbr⟩
+      · exact Or.inl ⟨s', hc.trans h1, hr⟩
+      · exact Or.inr (Or.inl ⟨s', e, hc.trans h1, he, hr⟩)
+      · exact Or.inr (Or.inr ⟨w, r, hc.trans h1, hph, hbr⟩)
+    cases op with
+    | emit p => simp only [runOps]; exact lift _ ⟨by simp [hm], rfl, rfl, rfl, rfl, rfl⟩
+    | drain =>
+      simp only [runOps, hl, hm, Bool.false_eq_true, if_false]
+      split
+      · exact Or.inr (Or.inr ⟨.drain, rest, (flush_calm s).trans ⟨by simp [hm], rfl, rfl, rfl, rfl, rfl⟩, rfl, hrest⟩)
+      · exact lift _ (flush_calm s)
+    | call c susp raises =>
+      have hcl : c ≠ .close := by intro h; subst h; simp [Op.benign] at hop
+      have hci : c ≠ .init := by intro h; subst h; simp [Op.benign] at hop
+      simp only [runOps, hcl, if_false]
+      split
+      · split
+        · rename_i _ h; rw [hm] at h; cases h
+        · refine Or.inr (Or.inr ⟨.future, .callRet c raises :: rest, ⟨rfl, rfl, rfl, rfl, rfl, rfl⟩, rfl, ?_⟩)
+          intro o ho
+          rcases List.mem_cons.mp ho with rfl | ho
+          · cases c <;> simp_all [Op.benign]
+          · exact hrest o ho
+      · cases raises with
+        | true => simp only [runOps, if_true]; exact Or.inr (Or.inl ⟨_, .generic, ⟨rfl, rfl, rfl, rfl, rfl, rfl⟩, Or.inr rfl, rfl⟩)
+        | false => simp only [runOps, Bool.false_eq_true, if_false, hci]; exact lift _ ⟨rfl, rfl, rfl, rfl, rfl, rfl⟩
+    | callRet c raises =>
+      have hci : c ≠ .init := by intro h; subst h; simp [Op.benign] at hop
+      cases raises with
+      | true => simp only [runOps, if_true]; exact Or.inr (Or.inl ⟨s, .generic, Calm.refl s, Or.inr rfl, rfl⟩)
+      | false => simp only [runOps, Bool.false_eq_true, if_false, hci]; exact lift s (Calm.refl s)
+    | pull susp =>
+      simp only [runOps, hm, Bool.false_eq_true, if_false]
+      split
+      · exact Or.inr (Or.inr ⟨.future, rest, ⟨by simp [hm], rfl, rfl, rfl, rfl, rfl⟩, rfl, hrest⟩)
+      · exact lift s (Calm.refl s)
+    | yield_ => simp only [runOps, hm, Bool.false_eq_true, if_false]; exact lift s (Calm.refl s)
+    | raise_ e =>
+      simp only [runOps]
+      cases e with
+      | mysqlError => exact Or.inr (Or.inl ⟨s, _, Calm.refl s, Or.inl rfl, rfl⟩)
+      | generic => exact Or.inr (Or.inl ⟨s, _, Calm.refl s, Or.inr rfl, rfl⟩)
+      | authFailed => simp [Op.benign] at hop
+      | cancelled => simp [Op.benign] at hop
+      | connLost => simp [Op.benign] at hop
+    | selfKill k =>
+      cases k with
+      | query => simp only [runOps]; exact lift s (Calm.refl s)
+      | conn => simp [Op.benign] at hop
+    | quit => simp [Op.benign] at hop
+
+def Healthy (s : S) : Prop := s.lost = false ∧ s.eofSeen = false ∧ s.mustCancel = false ∧ s.kill ≠ some .conn
+
+/-- ops of an `except` arm: write and flush -/
+def ArmOps (ops : List Op) : Prop := ∀ op ∈ ops, (∃ p, op = .emit p) ∨ op = .drain
+
+/-- running arm ops on a healthy transport with no cancellation pending: the arm ends or parks in its drain; it
+    cannot raise -/
+theorem runOps_arm (lvl : Lvl) (onEnd : S → Option Exc → S) (onThrow : S → Exc → S) (exc : Option Exc) :
+    ∀ (ops : List Op) (s : S), s.lost = false → s.mustCancel = false → ArmOps ops →
+      (∃ s', Calm s s' ∧ runOps lvl onEnd onThrow s ops exc = onEnd s' exc) ∨
+      (∃ rest, Calm s (runOps lvl onEnd onThrow s ops exc) ∧
+        (runOps lvl onEnd onThrow s ops exc).phase = .parked lvl .drain rest exc ∧ ArmOps rest) := by
+  intro ops
+  induction ops with
+  | nil => intro s _ _ _; exact Or.inl ⟨s, Calm.refl s, by simp [runOps]⟩
+  | cons op rest ih =>
+    intro s hl hm ha
+    have hrest : ArmOps rest := fun o ho => ha o (by simp [ho])
+    rcases ha op (by simp) with ⟨p, rfl⟩ | rfl
+    · simp only [runOps]
+      have hc0 : Calm s { s with buf := s.buf ++ [p] } := ⟨rfl, rfl, rfl, rfl, rfl, rfl⟩
+      rcases ih { s with buf := s.buf ++ [p] } hl hm hrest with ⟨s', hc, hr⟩ | ⟨r, hc, hph, har⟩
+      · exact Or.inl ⟨s', hc0.trans hc, hr⟩
+      · exact Or.inr ⟨r, hc0.trans hc, hph, har⟩
+    · simp only [runOps, hl, Bool.false_eq_true, if_false]
+      have hfl : (flush s).lost = false := by simp [flush, hl]
+      have hfm : (flush s).mustCancel = false := by rw [(flush_calm s).mustCancel]; exact hm
+      split
+      · split
+        · rename_i _ hmc; rw [hm] at hmc; cases hmc
+        · have hc1 : Calm (flush s) { (flush s) with phase := .parked lvl .drain rest exc } := ⟨rfl, rfl, rfl, rfl, rfl, rfl⟩
+          exact Or.inr ⟨rest, (flush_calm s).trans hc1, rfl, hrest⟩
+      · rcases ih (flush s) hfl hfm hrest with ⟨s', hc, hr⟩ | ⟨r, hc, hph, har⟩
+        · exact Or.inl ⟨s', (flush_calm s).trans hc, hr⟩
+        · exact Or.inr ⟨r, (flush_calm s).trans hc, hph, har⟩
 
 end Mimic.Conn
